@@ -14,12 +14,12 @@ if ! cmp -s "$BASE" /tmp/vs.$$.txt; then echo "REJECTED suite outcome differs: $
 rm -f /tmp/vs.$$.txt
 run_demo() {
   if [ -f "$D/demo.rs" ]; then mkdir -p tests; cp "$D/demo.rs" tests/demo.rs; timeout 300 cargo test --offline --test demo -j 6 >/tmp/vs.$$.demo 2>&1; rc=$?; rm -f tests/demo.rs; return $rc
-  elif [ -f "$D/demo_unit.patch" ]; then git apply "$D/demo_unit.patch" || return 99; timeout 300 cargo test --offline --lib -j 6 demo >/tmp/vs.$$.demo 2>&1; rc=$?; return $rc
-  else return 98; fi
+  elif [ -f "$D/demo_unit.patch" ]; then git apply "$D/demo_unit.patch" || return 199; timeout 300 cargo test --offline --lib -j 6 demo >/tmp/vs.$$.demo 2>&1; rc=$?; return $rc
+  else return 198; fi
 }
 run_demo; with=$?
 git checkout -q -- . ; git clean -qfd src tests 2>/dev/null
 run_demo; without=$?
 git checkout -q -- . ; git clean -qfd src tests 2>/dev/null; rm -f tests/demo.rs
-if [ $with -ne 0 ] && [ $with -lt 98 ] && [ $without -eq 0 ]; then echo "VERIFIED demo fails with the change (rc=$with) and passes without"; rm -f /tmp/vs.$$.demo; exit 0; fi
+if [ $with -ne 0 ] && [ $with -lt 198 ] && [ $without -eq 0 ]; then echo "VERIFIED demo fails with the change (rc=$with) and passes without"; rm -f /tmp/vs.$$.demo; exit 0; fi
 echo "REJECTED demo rc with=$with without=$without: $(tail -3 /tmp/vs.$$.demo | tr '\n' ' ' | cut -c1-200)"; rm -f /tmp/vs.$$.demo; exit 1
